@@ -19,6 +19,28 @@ pub fn genreq(seed: u64, n: u64, out: &Path) {
         let p = if rng.chance(50) { Profile::small() } else { Profile::maint_heavy() };
         let mut inst = gen_instance(&mut rng, &p);
         inst.prefix = format!("q{}x", k);
+        // "twin" requests: the instance of the previous request with the SAME ids but other times
+        // and demands — an answer taken from another request's computation then fails validation
+        // against the request's own instance
+        if k % 2 == 1 && rng.chance(50) {
+            let mut prev_rng = Rng::derive(seed, "serve", k - 1);
+            let _ = prev_rng.below(10);
+            let pp = if prev_rng.chance(50) { Profile::small() } else { Profile::maint_heavy() };
+            let mut twin = gen_instance(&mut prev_rng, &pp);
+            twin.prefix = format!("q{}x", k - 1);
+            let shift = crate::inst::GRID * rng.range(1, 3);
+            for d in twin.departures.iter_mut() {
+                for g in d.segs.iter_mut() {
+                    g.departure += shift;
+                    g.passengers += 1;
+                }
+            }
+            for m in twin.maint.iter_mut() {
+                m.start += shift;
+                m.end += shift;
+            }
+            inst = twin;
+        }
         let json = inst.to_json();
         let body = match kind {
             "valid" => serde_json::to_string(&json).unwrap(),
